@@ -288,10 +288,9 @@ StepTo(p, j, v, P) ==
   IN <<(p[1] + dx + P) % P, (p[2] + dy + P) % P>>
 
 (* ---------------- X08-f: run ------------------------------------------- *)
-\* ecounts[j] = |edges| after the j-th iteration of the run: how many iterations run(T, max_edges) executes
-RunLength(T, hasmax, maxe, ecounts) ==
-  IF T <= 0 THEN 0
-  ELSE IF hasmax /\ \E j \in 1..T : j <= Len(ecounts) /\ ecounts[j] >= maxe
-  THEN CHOOSE j \in 1..T : j <= Len(ecounts) /\ ecounts[j] >= maxe /\ \A l \in 1..(j - 1) : ecounts[l] < maxe
-  ELSE T
+\* run(T, max_edges) executed `done` iterations; ecounts[j] = |edges| after the j-th of them
+RunStopsWhereItShould(T, hasmax, maxe, done, ecounts) ==
+  /\ done = Len(ecounts) /\ done <= (IF T > 0 THEN T ELSE 0)
+  /\ \A j \in 1..(done - 1) : ~(hasmax /\ ecounts[j] >= maxe)
+  /\ done < T => (hasmax /\ done >= 1 /\ ecounts[done] >= maxe)
 =============================================================================
